@@ -14,6 +14,10 @@ CLAIMED = {
          'The well-formedness notion of the property is a decidable predicate in the Lean model (NbdimeModel.WF); it is evaluated on every diff produced by the generic differ, the notebook differ and inside merge decisions, next to validation against the published diff schema and a JSON round trip.',
          'Trusted: Lean kernel, axioms as above, jsonschema (Draft4) on the repository schema file. The theorem that every diff the *model* differ produces is WF is not yet proved; WF of implementation output is checked per produced diff (bounded by generated cases).',
          '5/C11'),
+ 'C14': ('Lean theorems about ignore/ignoreKeys entries of the model differ + per-run extraction of the 64 ignore tables discharged by `decide` against the category predicate + correspondence under every configuration',
+         'For every oracle, configuration and document: an `ignore` table entry contributes no diff entry and `ignoreKeys` removes every entry with an ignored key (Lean theorems); the tables that set_notebook_diff_targets builds for all 64 subsets are extracted from the live code on every run and checked by a generated `decide` obligation against the category predicate C14.tableOk; the three clauses (hidden / faithful / only-ignored => empty) are evaluated on the implementation for all 64 subsets x {negative flags, positive flags, config booleans, Ignore mapping with True, with key lists, key lists + flag} through the real nbdiff parser glue.',
+         'Trusted: Lean kernel, axioms as above, the table extractor (harness/nbcfg.py), the category specification written from the CLI help text. Known findings F-ign-id, F-ign-attkey, F-ign-align are matched by classifiers; the hidden-clause theorem covers keys present on both sides with non-atomic values (exactly where the code consults the table), which is why those findings exist.',
+         '5/C14'),
  'C02': ('Lean 4 theorems on a hand-written model of diff/patch + differential correspondence with nbdime.diff/patch',
          'Lean theorems about the executable model of the generic differ and the independent patcher (round trip for every LCS matching, every oracle answer); the model is tied to /repo by running nbdime.diff/nbdime.patch and the model on the same generated and exhaustively enumerated pairs on every run, and the property itself is evaluated on the implementation with the model patcher as independent reference.',
          'Trusted: Lean kernel, axioms {propext, Classical.choice, Quot.sound}, harness codec, CPython difflib and the similarity heuristics as oracles (contracts K1,K4 checked on recorded answers). Known finding F-eq (numeric aliasing by Python ==) is matched by a classifier; theorems carry the NoAlias hypothesis or conclude pyEq.',
